@@ -599,7 +599,8 @@ def render_module(prog, mod, twin=False, order=None, skip=()):
         parts.append(render_def(prog, i, skip) + "\n")
     for al in prog["aliases"]:
         if al["mod"] == mod and prog["nodes"][al["target"]]["name"] not in skip:
-            parts.append("%s = %s\n" % (al["name"], prog["nodes"][al["target"]]["name"]))
+            parts.append("%s = %s%s\n" % (al["name"], prog["nodes"][al["target"]]["name"],
+                                          ".force_local()" if al.get("clone") else ""))  # (a module-level modifier clone)
     return "".join(parts)
 
 
